@@ -86,26 +86,7 @@ def run(fx, tier):
                         key='C02:R-VALUES:%s::%s(%s)' % (f.cls, f.n, f.tag), where=it.where())
     if n_inv < 20:
         raise AnalysisBroken('only %d completion sites of the stream operations found' % n_inv)
-    # who may start raw stream I/O
-    for f in fx.fns:
-        if not f.path_file().startswith('boost/mqtt5/impl/') or f.lam:
-            continue
-        for b, i, l, c in f.calls():
-            nm = callee_name(c)
-            q = callee_q(c)
-            raw = None
-            if nm == 'async_write' and q == 'boost::mqtt5::detail::async_write':
-                raw = 'async_write'
-            elif nm == 'async_read_some' and callee_cls(c) not in ('autoconnect_stream',):
-                raw = 'async_read_some'
-            elif nm == 'async_connect':
-                raw = 'async_connect'
-            elif q == 'boost::asio::async_read':
-                raw = 'async_read'
-            if raw:
-                v.check(f.cls in RAW_IO[raw], 'R-VALUES', '%s::%s starts raw %s [%s]' % (f.cls, f.n, raw, f.tu),
-                        'raw stream I/O is confined to %s' % (RAW_IO[raw],),
-                        key='C02:R-VALUES:raw-io:%s::%s' % (f.cls, f.n), where='%s:%d' % (f.path_file(), l))
+    raw_io_rule(fx, v, 'C02')
 
     # ------------------------------------------------------------------ R-CGRAPH / R-FLOW
     n_cont = 0
@@ -343,3 +324,29 @@ def run(fx, tier):
         'handling on the continuation graph of the request operations, reuse of the stored packet, and the fixed shape '
         'of the reconnect → update_session_state → resend → resend_unanswered/try_again chain, including sibling '
         'agreement of the two reconnect-worthy error sets. Liveness (eventual completion) is not decided.')
+
+
+def raw_io_rule(fx, v, prop='C02', rid='R-VALUES'):
+    """shared with C19: the handshake reads exact byte counts through asio::async_read(transfer_all); a raw
+    async_read_some outside the stream operations frames a packet from whatever arrived first"""
+    # who may start raw stream I/O
+    for f in fx.fns:
+        if not f.path_file().startswith('boost/mqtt5/impl/') or f.lam:
+            continue
+        for b, i, l, c in f.calls():
+            nm = callee_name(c)
+            q = callee_q(c)
+            raw = None
+            if nm == 'async_write' and q == 'boost::mqtt5::detail::async_write':
+                raw = 'async_write'
+            elif nm == 'async_read_some' and callee_cls(c) not in ('autoconnect_stream',):
+                raw = 'async_read_some'
+            elif nm == 'async_connect':
+                raw = 'async_connect'
+            elif q == 'boost::asio::async_read':
+                raw = 'async_read'
+            if raw:
+                v.check(f.cls in RAW_IO[raw], rid, '%s::%s starts raw %s [%s]' % (f.cls, f.n, raw, f.tu),
+                        'raw stream I/O is confined to %s' % (RAW_IO[raw],),
+                        key='%s:%s:raw-io:%s::%s' % (prop, rid, f.cls, f.n), where='%s:%d' % (f.path_file(), l))
+
